@@ -453,6 +453,117 @@ def msrun(toks):
             pass
     return ' '.join(out)
 
+_KP_NAMES = {'t': 'coin_type', 'a': 'account', 'c': 'change', 'i': 'address_index'}
+
+
+def kp_levels(spec):
+    """'ah.ch.ih' -> ['m', "account'", "change'", "address_index'"]"""
+    return ['m'] + [_KP_NAMES[x[0]] + ("'" if x.endswith('h') else '') for x in spec.split('.')]
+
+
+def fmt_kp(k):
+    """a handed-out WalletKey of a custom key_path wallet"""
+    return '|'.join(str(x) for x in (k.path, k.address, k.wif, k.address_index, k.change, k.account_id))
+
+
+def fmt_kp_row(r):
+    return '/'.join(str(x) for x in (r.id, r.path.replace('/', '.'), r.address, r.wif, r.address_index, r.change,
+                                     r.account_id, r.depth, int(bool(r.used)), r.network_name,
+                                     _WTL.get(r.witness_type, '?'), int(bool(r.is_private)), r.key_type))
+
+
+def kprun(toks):
+    """wallets with a custom key_path (hardened change / index levels, no purpose level, ...): probe, judged by the
+    independent oracle only.   kprun <seedhex> C:<slot>:<net>:<wt>:<levels> then K / G / P / B / S / A / U / R"""
+    seed = bytes.fromhex(toks[1])
+    slots, out = {}, []
+    uid = next(_counter)
+    for cmd in toks[2:]:
+        f = cmd.split(':')
+        c = f[0]
+        s = None
+        try:
+            if c == 'C':
+                slot, net, wt, spec = f[1], f[2], _WT[f[3]], f[4]
+                name = 'kp%d_%s' % (uid, slot)
+                uri = 'sqlite:///' + os.path.join(os.getcwd(), 'c09_%s_%d.sqlite' % (name, os.getpid()))
+                key = HDKey.from_seed(seed, network=net, witness_type=wt)
+                w = Wallet.create(name, keys=key, network=net, witness_type=wt, key_path=kp_levels(spec), db_uri=uri)
+                s = slots[slot] = Slot(w, name, uri)
+                s.spec = spec.split('.')
+                out.append('C=ok~' + ';'.join(fmt_kp_row(r) for r in w.keys()))
+                continue
+            if f[1] not in slots:
+                out.append(c + '=NOSLOT')
+                continue
+            s = slots[f[1]]
+            w = s.w
+            hard = {x[0]: x.endswith('h') for x in s.spec}
+            if c == 'K':
+                acct, chg, n = opt_int(f[2]), int(f[3]), int(f[4])
+                if n == 1 and chg == 1:
+                    ks = [w.new_key_change(account_id=acct)]
+                elif n == 1:
+                    ks = [w.new_key(account_id=acct, change=chg)]
+                else:
+                    ks = w.new_keys(account_id=acct, change=chg, number_of_keys=n)
+                res = 'K=' + ','.join(fmt_kp(k) for k in ks)
+            elif c == 'G':
+                acct, chg, n = opt_int(f[2]), int(f[3]), int(f[4])
+                if n == 1:
+                    ks = [w.get_key_change(account_id=acct) if chg == 1 else w.get_key(account_id=acct)]
+                elif chg == 1:
+                    ks = w.get_keys_change(account_id=acct, number_of_keys=n)
+                else:
+                    ks = w.get_keys(account_id=acct, number_of_keys=n)
+                res = 'G=' + ','.join(fmt_kp(k) for k in ks)
+            elif c == 'P':      # key_for_path([change, address_index]), hardened items written as "<n>'"
+                acct, chg, idx = opt_int(f[2]), int(f[3]), int(f[4])
+                path = [("%d'" % v) if hard[l] else v for l, v in (('c', chg), ('i', idx))]
+                k = w.key_for_path(path, account_id=acct)
+                res = 'P=' + fmt_kp(k)
+            elif c == 'B':      # keys_for_path([], change, address_index, number_of_keys): explicit bulk creation
+                acct, chg, idx, n = opt_int(f[2]), int(f[3]), int(f[4]), int(f[5])
+                ks = w.keys_for_path([], account_id=acct, change=chg, address_index=idx, number_of_keys=n)
+                res = 'B=' + ','.join(fmt_kp(k) for k in ks)
+            elif c == 'S':
+                w.scan(scan_gap_limit=int(f[2]))
+                res = 'S=ok'
+            elif c == 'A':
+                k = w.new_account()
+                res = 'A=' + fmt_kp(k)
+            elif c == 'U':
+                lv = [k for k in w.keys(depth=w.key_depth)]
+                if not lv:
+                    raise ValueError('no keys yet')
+                k = lv[int(f[2]) % len(lv)]
+                w.utxos_update(account_id=k.account_id, networks=k.network_name,
+                               utxos=[{'address': k.address, 'script': '', 'confirmations': 1, 'output_n': 0,
+                                       'txid': '%064x' % (int(f[2]) + 1), 'value': 100000}])
+                res = 'U=%d' % k.id
+            elif c == 'R':
+                name, uri, spec = s.name, s.uri, s.spec
+                s.w = None
+                del w
+                s.w = Wallet(name, db_uri=uri)
+                res = 'R=ok'
+            else:
+                return 'BADREQ'
+            out.append(res + '~' + ';'.join(fmt_kp_row(r) for r in s.w.keys()))
+        except (WalletError, BKeyError, ValueError) as e:
+            try:
+                out.append(c + '=ERR' + ('~' + ';'.join(fmt_kp_row(r) for r in s.w.keys()) if s is not None else ''))
+            except Exception as e2:
+                out.append(c + '=CRASH:' + type(e2).__name__)
+        except Exception as e:
+            out.append(c + '=CRASH:' + type(e).__name__)
+    for s in slots.values():
+        try:
+            s.w.session.close()
+        except Exception:
+            pass
+    return ' '.join(out)
+
 
 def expand(t):
     # expand <wt> <ms> <coin-ignored> <acct> <chg> <idx> <cos> <network>: keys.path_expand over the structure tables
@@ -475,6 +586,8 @@ def dispatch(t):
         return expand(t)
     if t[0] == 'msrun':
         return msrun(t)
+    if t[0] == 'kprun':
+        return kprun(t)
     return 'BADREQ'
 
 
